@@ -2,7 +2,7 @@
    Model: Rt/JsonEncode.v (FlattenedFields, __premarshal / MarshalJSON, __marshal<Interface>) over
    Rt/JsonDecode.v and the declarations of Gen/Convert.v. *)
 From Verif Require Import Base.Str Gen.Consts Gen.Gql Gen.Directive Gen.Convert Rt.JsonDecode Rt.JsonEncode
-  Proofs.JsonProofs Proofs.EncodeProofs.
+  Proofs.JsonProofs Proofs.EncodeProofs Proofs.RoundTrip.
 
 (* FlattenedFields picks exactly one Go field per JSON name, for EVERY typemap and struct
    (however many embedded fragment structs carry the name) *)
@@ -46,3 +46,22 @@ Theorem C06_null_list_roundtrip_refuted :
     /\ j = JObj [(b "items", JNull)] /\ j' = JObj [(b "items", JArr [])].
 Proof. exact null_list_roundtrip_refuted. Qed.
 Print Assumptions C06_null_list_roundtrip_refuted.
+
+(* the round trip as a theorem for the wrapper algebra of leaf types: for every list depth, with
+   or without a pointer, over every scalar-like type, marshaling a value that decoding can
+   produce and unmarshaling the result gives the value back (no bound on depth or length) *)
+Theorem C06_wrapper_roundtrip :
+  forall tm w v t f cur,
+  wrapper_type tm t = true -> canonical tm t v -> (gsize v < f)%nat ->
+  exists j, encode tm f t v = Ok j /\ decode tm w f t j cur = Ok v.
+Proof. exact wrapper_roundtrip. Qed.
+Print Assumptions C06_wrapper_roundtrip.
+
+Theorem C06_wrapper_roundtrip_witness :
+  let t := GSlice (GSlice (GPtr (GOpaque (b "string") (b "String") [] []))) in
+  let v := VSlice [VSlice [VPtr (VScalar (JStr (b "a"))); VNilPtr]; VNilSlice; VSlice []] in
+  wrapper_type [] t = true /\ canonical [] t v
+  /\ encode [] 10 t v = Ok (JArr [JArr [JStr (b "a"); JNull]; JNull; JArr []])
+  /\ decode [] true 10 t (JArr [JArr [JStr (b "a"); JNull]; JNull; JArr []]) VZero = Ok v.
+Proof. exact wrapper_roundtrip_example. Qed.
+Print Assumptions C06_wrapper_roundtrip_witness.
